@@ -23,11 +23,15 @@ def run(ctx):
     hand = vlib.build_driver("handover")
     stress = vlib.build_driver("stress")
     stress_race = vlib.build_driver("stress", race=True)
-    for mod, cfg in (("ActiveIndex.tla", "ActiveIndex_design.cfg"), ("ProxyFrac.tla", "ProxyFrac.cfg")):
+    for mod, cfg in (("ActiveIndex.tla", "ActiveIndex_design.cfg"), ("ProxyFrac.tla", "ProxyFrac.cfg"), ("FracAppend.tla", "FracAppend.cfg")):
         r = vlib.run_tlc(ctx, mod, cfg, tags=("NOCASE",), timeout=1200)
         if r.violated:
             raise vlib.Infra("TLC: %s violated in %s" % (r.violated, mod))
         vlib.require_tlc_ok(r, mod)
+    # an appender that keeps the writer it picked before a rotation never returns: the model must say so
+    r = vlib.run_tlc(ctx, "FracAppend.tla", "FracAppend_stale.cfg", tags=("NOCASE",), timeout=600, quiet=True, keep_lines=True)
+    if not any("EveryBulkReturns was violated" in ln for ln in r.lines):
+        raise vlib.Infra("vacuity guard: FracAppend_stale.cfg should violate EveryBulkReturns, TLC says %s" % (r.violated or r.error))
     if not quick:
         for mod, cfg, inv in (("ActiveIndex.tla", "ActiveIndex_mutPos.cfg", "ReturnedOK"), ("ActiveIndex.tla", "ActiveIndex_mutClamp.cfg", "ReturnedOK"),
                               ("ActiveIndex.tla", "ActiveIndex_mutIds.cfg", "NoInverserPanic"), ("ProxyFrac.tla", "ProxyFrac_mut.cfg", "NoSpuriousEmpty")):
